@@ -228,10 +228,11 @@ def make_scheduler(rng: random.Random, node_names=()):
 
 # ---------------------------------------------------------------------------------------------
 class Sim:
-    def __init__(self, scheduler: Scheduler, step_cap: int = 60000, set_rng=None):
+    def __init__(self, scheduler: Scheduler, step_cap: int = 20000, set_rng=None, task_cap: int = 2500):
         self.scheduler = scheduler
         self.loop = SimLoop(self)
         self.step_cap = step_cap
+        self.task_cap = task_cap
         self.set_rng = set_rng
         self.trace = []          # (seq, vtime, kind, run, node, payload)
         self.seq = 0
@@ -399,8 +400,11 @@ class Sim:
         return bool(self.run_tasks)
 
     def after_handle(self):
-        if self.loop.handles_run >= self.step_cap:
+        n = self.loop.handles_run
+        if n >= self.step_cap:
             return STEPCAP
+        if (n & 255) == 0 and len(asyncio.all_tasks(self.loop)) > self.task_cap:
+            return STEPCAP      # runaway task creation: a livelock that would make every further handle slower
         for i, t in enumerate(self.run_tasks):
             if i not in self.done_seq and t.done():
                 self.done_seq[i] = (self.seq, self.loop.handles_run)
